@@ -20,7 +20,7 @@ import (
 func init() {
 	register(&Prop{
 		ID: "C02",
-		Rule: "valid PBF files of 0..40 small blocks (more blocks than the 10-slot channel budget) scanned with 1,2,3,4,5,7,8,11,16,32 decoders (including more decoders than blocks) under perturbed timing: the input reader delivers irregular chunks and stalls, filter callbacks make individual blocks slow or fast (a later block finishing before an earlier one), the consumer stalls while retaining every returned object; the result is compared with the format model, with the single-decoder scan, and the retained objects are compared again at the end; the whole harness runs under the Go race detector; " +
+		Rule: "valid PBF files of 0..40 small blocks (more blocks than the 10-slot channel budget) scanned with 1,2,3,4,5,7,8,11,16,32 decoders (including more decoders than blocks) under perturbed timing: the input reader delivers irregular chunks and stalls, filter callbacks make individual blocks slow or fast (a later block finishing before an earlier one), the consumer stalls while retaining every returned object; the result is compared with the format model, with the single-decoder scan; files with a damaged block after intact ones and the earlier blocks slowed down (the prefix of intact blocks must still arrive, then the error), and the retained objects are compared again at the end; the whole harness runs under the Go race detector; " +
 			"non-trivial = file with at least two blocks; distinct = distinct op line",
 		Gen:  c02Gen,
 		Exec: c02Exec,
@@ -70,6 +70,9 @@ func jitter(seed uint64, id int64) {
 
 func c02Exec(op string) (string, *Violation) {
 	f := fields(op)
+	if f[0] == "pard" {
+		return c02Damaged(f)
+	}
 	if f[0] != "par" || len(f) < 3 {
 		return "bad-op", nil
 	}
@@ -137,6 +140,64 @@ func c02Exec(op string) (string, *Violation) {
 	return line, nil
 }
 
+// c02Damaged: pard <procs> <tseed> <class> <pos> FILE — a damaged block after intact ones, earlier blocks slowed
+// down so that the damaged block is decoded (and fails) before they have been handed over: every object of the
+// intact blocks must still arrive, in order, followed by the error.
+func c02Damaged(f []string) (string, *Violation) {
+	if len(f) < 6 {
+		return "bad-op", nil
+	}
+	procs, _ := strconv.Atoi(f[1])
+	tseed, _ := strconv.ParseUint(f[2], 10, 64)
+	pos, _ := strconv.Atoi(f[4])
+	pf, err := ParsePFile(f[5:])
+	if err != nil {
+		return "bad-op", nil
+	}
+	data, ok := c06Damaged(pf, f[3], pos)
+	if !ok {
+		return "not-applicable", nil
+	}
+	slow := func(id int64) {
+		h := (uint64(id) + tseed) * 0x9e3779b97f4a7c15
+		if (h>>61)&1 == 0 {
+			time.Sleep(time.Duration(200+(h>>40)%900) * time.Microsecond)
+		} else {
+			runtime.Gosched()
+		}
+	}
+	s := osmpbf.New(context.Background(), &stallReader{r: bytes.NewReader(data), rng: NewRng(tseed ^ 0x77)}, procs)
+	s.FilterNode = func(n *osm.Node) bool { slow(int64(n.ID)); return true }
+	s.FilterWay = func(w *osm.Way) bool { slow(int64(w.ID)); return true }
+	s.FilterRelation = func(r *osm.Relation) bool { slow(int64(r.ID)); return true }
+	var h *osmpbf.Header
+	var objs []osm.Object
+	var serr error
+	done := make(chan struct{})
+	go func() {
+		defer close(done)
+		var herr error
+		h, herr = s.Header()
+		if herr == nil {
+			for s.Scan() {
+				objs = append(objs, s.Object())
+			}
+		}
+		serr = s.Err()
+		s.Close()
+	}()
+	select {
+	case <-done:
+	case <-time.After(30 * time.Second):
+		return "HANG", &Violation{Signature: "pbf-hang", Text: fmt.Sprintf("the scan of a damaged stream with %d decoders does not finish (30s)", procs)}
+	}
+	line := c06Line(h != nil, objs, serr)
+	if serr == nil {
+		return line, &Violation{Signature: "pbf-damage-silent-success-" + f[3], Text: "a damaged stream is scanned to the end without an error"}
+	}
+	return line, nil
+}
+
 func c02Gen(r *Rng, tier string, emit func(string)) {
 	n := 150
 	if tier == "thorough" {
@@ -153,5 +214,17 @@ func c02Gen(r *Rng, tier string, emit func(string)) {
 			}
 		}
 		emit(fmt.Sprintf("par %d %d %s", procs[r.Intn(len(procs))], r.U64()>>1, pf.Tokens()))
+		// the same file with a damaged block late in the file
+		if len(pf.Blocks) >= 3 && i%3 == 0 {
+			classes := []string{"plain-nodes", "zlib-corrupt", "rawsize-wrong", "type-unknown", "datasize-oversized", "dense-no-ids", "string-oob-dense"}
+			pos := 2 + r.Intn(len(pf.Blocks)-1)
+			for try := 0; try < 6; try++ {
+				c := classes[r.Intn(len(classes))]
+				if _, ok := c06Damaged(pf, c, pos); ok {
+					emit(fmt.Sprintf("pard %d %d %s %d %s", procs[1+r.Intn(len(procs)-1)], r.U64()>>1, c, pos, pf.Tokens()))
+					break
+				}
+			}
+		}
 	}
 }
